@@ -1,6 +1,8 @@
 import OvniModel.Emu.System
 import OvniModel.Emu.SystemSpec
 import OvniModel.Lemmas.SystemMain
+import OvniModel.Lemmas.SystemOrder
+import OvniModel.Lemmas.SystemConflict
 
 /-!
 # C15 — metadata merge is distribution-independent; conflicts are refused cleanly
@@ -126,5 +128,111 @@ example : RelpathsDistinct wBig ∧ RelpathsDistinct wBig' ∧ build .asIs wBig 
   decide
 
 example : SameUnion wBig wBig' := by decide
+
+/-! ## order_spec -/
+
+/-- A successful `build` is ordered as the property says (`Ordered`, in
+    `Emu/SystemSpec.lean`): looms by rank_min (the minimum rank of their
+    processes) exactly when every loom has ranks, else strictly by name
+    (`strcmp`); inside a loom, processes by rank when the loom has ranks
+    (then every process has one), else strictly by pid; threads strictly by
+    tid; CPUs strictly by physical id. -/
+theorem order_spec (m : Mode) (ss : List StreamMeta) (h : Hier) (hb : build m ss = .ok h) : Ordered h := by
+  obtain ⟨sys, hc, hf⟩ := build_ok hb
+  exact finish_ordered (create_ok hc) hf
+
+/-- Rows of `thread.prv` in hierarchy order: looms, then processes, then
+    threads; the name carries the process's app id and the thread's tid. -/
+theorem threadRows_spec (h : Hier) :
+    h.threadRows = h.looms.flatMap fun l => l.procs.flatMap fun p => p.threads.map fun t => (p.appid, t.tid) := by
+  simp only [Hier.threadRows, Hier.threads, List.map_flatMap, List.map_map]
+  rfl
+
+/-- Rows of `cpu.prv`: loom after loom (numbered by position), its CPUs in
+    order, then its virtual CPU — the virtual CPU is the last row of each loom. -/
+theorem cpuRows_spec (i : Nat) (l : HLoom) (ls : List HLoom) :
+    cpuRowsFrom i (l :: ls) =
+      l.cpus.map (fun c => (i, some c.phyid)) ++ (i, none) :: cpuRowsFrom (i + 1) ls := by
+  simp [cpuRowsFrom, loomCpuRows]
+
+/-- Non-vacuity: a build that succeeds, is sorted by rank, and whose rows are
+    the expected ones (loom `n1` holds ranks 0 and 1 and comes first; inside it
+    pid 4 (rank 0) precedes pid 5 (rank 1); CPUs by physical id, vCPU last). -/
+example : ∃ h, build .asIs wBig = .ok h ∧ h.sortByRank = true ∧
+    h.threadRows = [(2, 40), (2, 41), (1, 50), (3, 70), (3, 71)] ∧
+    h.cpuRows = [(0, some 9), (0, none), (1, some 2), (1, some 4), (1, none)] := by
+  refine ⟨_, rfl, ?_⟩
+  decide
+
+/-! ## conflicts_refused -/
+
+-- OPEN (refuted for the code as it is, see `not_conflicts_refused_asIs`):
+--   theorem conflicts_refused (ss) (hc : Conflict ss) : ∃ e, build .asIs ss = .error e
+-- What is missing is exactly the hypothesis `build .asIs ss ≠ .crash`.
+
+/-- None of the contradictions of the property (two app ids, ranks or rank
+    counts in one process; one CPU index bound to two physical ids or one
+    physical id to two indices; duplicate TIDs; a loom without CPUs; a process
+    without app id) is ever accepted — for the code as it is and for the fixed
+    lookup alike. -/
+theorem conflicts_never_accepted (m : Mode) (ss : List StreamMeta) (hc : Conflict ss) (h : Hier) :
+    build m ss ≠ .ok h :=
+  conflict_never_ok hc h
+
+/-- ... and unless `load_cpus` dereferences the unallocated `cpus_array`
+    first, it is refused with an error. -/
+theorem conflicts_refused_partial (ss : List StreamMeta) (hc : Conflict ss)
+    (hn : build .asIs ss ≠ .crash) : ∃ e, build .asIs ss = .error e := by
+  cases hb : build .asIs ss with
+  | ok h => exact absurd hb (conflict_never_ok hc h)
+  | error e => exact ⟨e, rfl⟩
+  | crash => exact absurd hb hn
+
+/-- The hypothesis cannot be dropped for the code as it is: index 0 bound to
+    phyid 0 and 5 is a contradiction and crashes. -/
+theorem not_conflicts_refused_asIs :
+    ¬ (∀ ss : List StreamMeta, Conflict ss → ∃ e, build .asIs ss = .error e) := by
+  intro h
+  have hc : Conflict wTwoPhy :=
+    Conflict.indexTwoPhyids [110] 0 0 5 (by decide) (by decide) (by decide)
+  obtain ⟨e, he⟩ := h wTwoPhy hc
+  rw [crash_witness_two_phyids] at he
+  cases he
+
+/-- Full strength for the fixed lookup: every contradiction is refused with an
+    error — never accepted, never a crash. -/
+theorem conflicts_refused_fixed (ss : List StreamMeta) (hc : Conflict ss) :
+    ∃ e, build .fixed ss = .error e := by
+  cases hb : build .fixed ss with
+  | ok h => exact absurd hb (conflict_never_ok hc h)
+  | error e => exact ⟨e, rfl⟩
+  | crash => exact absurd hb (build_fixed_ne_crash ss)
+
+/-- Conversely a failing merge always has a reason in the union: if
+    `create_system` fails with an error then the union violates `CreateOK` or
+    binds a CPU index to two physical ids. -/
+theorem create_error_has_conflict (m : Mode) (ss : List StreamMeta) (e : Err)
+    (h : create m (load ss) = .error e) : ¬ (CreateOK (load ss) ∧ IndexOK (cpuFacts (load ss))) :=
+  create_error h
+
+/-- Non-vacuity: each kind of contradiction is exhibited by a concrete trace
+    which the model refuses with the corresponding error. -/
+example :
+    build .asIs [mkStream [97] [110] 1 1 (some 1) (some [(0, 0)]), mkStream [98] [110] 1 2 (some 2) none]
+      = .error .appidMismatch ∧
+    build .asIs [mkStream [97] [110] 1 1 (some 1) (some [(0, 0)]) (some 0) (some 2),
+                 mkStream [98] [110] 1 2 none none (some 1) (some 2)] = .error .rankMismatch ∧
+    build .asIs [mkStream [97] [110] 1 1 (some 1) (some [(0, 0)]) (some 0) (some 2),
+                 mkStream [98] [110] 1 2 none none (some 0) (some 3)] = .error .nranksMismatch ∧
+    build .asIs [mkStream [97] [110] 1 1 (some 1) (some [(0, 0), (1, 0)])] = .error .cpuIndexMismatch ∧
+    build .asIs [mkStream [97] [110] 1 1 (some 1) (some [(1, 0), (1, 5)])] = .error .cpuIndexTaken ∧
+    build .asIs [mkStream [97] [110] 1 1 (some 1) (some [(0, 0)]), mkStream [98] [110] 1 1 none none]
+      = .error .dupThread ∧
+    build .asIs [mkStream [97] [110] 1 1 (some 1) none] = .error .noCpus ∧
+    build .asIs [mkStream [97] [110] 1 1 none (some [(0, 0)])] = .error .appidMissing := by
+  decide
+
+example : Conflict [mkStream [97] [110] 1 1 (some 1) (some [(0, 0)]), mkStream [98] [110] 1 1 none none] :=
+  Conflict.dupTid (by decide)
 
 end Ovni.Props.C15
